@@ -237,6 +237,7 @@ def worker(spec):
             res.count("budget_cut")
             break
         T.has_multiline = False
+        T.has_nonascii = False
         st = T.stack(0)
         for asc, ctx, hid in itertools.product((False, True), (True, False), (True, False)):
             o = dict(ctx=ctx, hidden=hid)
@@ -265,10 +266,13 @@ def worker(spec):
                 if mapped != lines:
                     bad = [(a, b) for a, b in zip(mapped, lines) if a != b][:2]
                     probs.append("ascii output is not the unicode output under the marker substitution: %r" % (bad,))
-                try:
-                    "".join(lines).encode("ascii")
-                except UnicodeEncodeError:
-                    probs.append("ascii_only output is not pure ASCII")
+                if not T.has_nonascii:   # "pure ASCII when names, source and reprs are ASCII"
+                    try:
+                        "".join(lines).encode("ascii")
+                    except UnicodeEncodeError:
+                        probs.append("ascii_only output is not pure ASCII")
+                else:
+                    res.count("renders_with_nonascii_content")
             else:
                 try:
                     got = normalise(read_stack([l[:-1] for l in lines]))
